@@ -712,13 +712,14 @@ func (p *Prog) errorSurfaces(fn *ssa.Function, ev ssa.Value) (bool, string) {
 	okAll := true
 	why := ""
 	start := test.Block().Succs[nn]
-	seen := map[*ssa.BasicBlock]bool{}
-	var walk func(b *ssa.BasicBlock)
-	walk = func(b *ssa.BasicBlock) {
-		if seen[b] || !okAll {
+	type edge struct{ from, to *ssa.BasicBlock }
+	seen := map[edge]bool{}
+	var walk func(from, b *ssa.BasicBlock)
+	walk = func(from, b *ssa.BasicBlock) {
+		if seen[edge{from, b}] || !okAll {
 			return
 		}
-		seen[b] = true
+		seen[edge{from, b}] = true
 		if b == test.Block() {
 			okAll, why = false, "error path loops back"
 			return
@@ -739,25 +740,49 @@ func (p *Prog) errorSurfaces(fn *ssa.Function, ev ssa.Value) (bool, string) {
 				}
 				c, rv := classifyReturn(ret)
 				if c == retSuccess || c == retUnknown {
+					// path-sensitive refinement: a phi of this block (possibly under the wrap helper) takes the
+					// value of the edge the error path arrives on
+					if c2, ok := classifyOnEdge(rv, from, b); ok && (c2 == retError || c2 == retPropagate) {
+						return
+					}
 					okAll, why = false, "return at "+p.InstrPos(ret)+" does not carry a non-nil error"
 					return
 				}
-				_ = rv
 				return
 			}
 		}
-		if len(b.Succs) == 0 {
-			return
-		}
 		for _, s := range b.Succs {
-			walk(s)
+			walk(b, s)
 		}
 	}
-	walk(start)
+	walk(test.Block(), start)
 	if okAll {
 		return true, "non-nil edge returns an error on every path"
 	}
 	return false, why
+}
+
+// classifyOnEdge: the class of a returned error value when block b is entered from pred `from`
+// and the value is a phi of b (looked up through wrapError* helpers).
+func classifyOnEdge(rv ssa.Value, from, b *ssa.BasicBlock) (retClass, bool) {
+	for depth := 0; depth < 4 && rv != nil; depth++ {
+		rv = canon(rv)
+		if c, ok := rv.(*ssa.Call); ok && isWrapHelperCall(c) && len(c.Call.Args) > 0 {
+			rv = c.Call.Args[0]
+			continue
+		}
+		break
+	}
+	ph, ok := rv.(*ssa.Phi)
+	if !ok || ph.Block() != b || from == nil {
+		return retUnknown, false
+	}
+	for i, pr := range b.Preds {
+		if pr == from {
+			return classifyErrValue(ph.Edges[i], from, 1), true
+		}
+	}
+	return retUnknown, false
 }
 
 // S5 error surfacing in commit routines.
